@@ -557,6 +557,34 @@ func runC09(c *Ctx) {
 					base += left
 				}
 			}
+			// a base controller that has stopped: the constructor fails and
+			// leaves nothing behind (the intermediate ingress->services join is
+			// closed again), the other bases keep running
+			for _, which := range []string{"pod", "service"} {
+				if which == "pod" {
+					pod.closeFn()
+				} else {
+					svc.closeFn()
+				}
+				pert.Barrier()
+				time.Sleep(time.Millisecond)
+				sched.Settle()
+				b2 := sched.LibraryGoroutines()
+				jc, err := join.IngressPods(ctx, ing.raw.(tingress.Controller), svc.raw.(tservice.Controller), pod.raw.(tpod.Controller))
+				if err == nil {
+					problems = append(problems, "IngressPods over a stopped "+which+" controller succeeded")
+					jc.Close()
+				}
+				pert.Barrier()
+				time.Sleep(time.Millisecond)
+				sched.Settle()
+				if left := sched.LibraryGoroutines() - b2; left > 0 {
+					problems = append(problems, fmt.Sprintf("%d library goroutines are left after IngressPods failed over a stopped %s controller (the intermediate join is not closed)", left, which))
+				}
+				if isClosed(ing.done()) {
+					problems = append(problems, "a failed IngressPods stopped the ingress controller")
+				}
+			}
 		})
 		runs++
 		c.Rep.Evaluations++
